@@ -558,6 +558,11 @@ def _pathlengths(repo, col):
     unknown = []
     for g in _conjuncts(gap[0].guards):
         k = None
+        g0 = g
+        while g0.op == "not" or (g0.op == "unary" and g0.name == "Not"):
+            g0 = g0.args[0]
+        if g0.op == "cmp" and any((a_.op in ("call", "mcall") and a_.name == "len") for a_ in g0.args):
+            continue   # the one-point case distinction (also as the negation of an early `continue`)
         if g.op == "param" and g.name == "is_single_point_soma":
             k = "single_point_soma"
         elif g.op == "cmp" and len(g.args) == 2:
@@ -733,7 +738,13 @@ def _split(repo, col):
         `a != b or c != d`, `not (a == b and c == d)`, nested ifs -- all the same condition."""
         while g.op == "not" or (g.op == "unary" and g.name == "Not"):
             neg, g = not neg, g.args[0]
-        if g.op == "bool" and ((g.name == "Or" and not neg) or (g.name == "And" and neg)):
+        if g.op == "unary" and g.name == "Invert":
+            return starts(g.args[0], not neg)
+        if (g.op == "bool" and ((g.name == "Or" and not neg) or (g.name == "And" and neg))) or \
+                (g.op == "binop" and ((g.name == "|" and not neg) or (g.name == "&" and neg))) or \
+                (g.op == "mcall" and g.args and g.args[0].op == "free" and ((g.name == "logical_or" and not neg) or (g.name == "logical_and" and neg))):
+            if g.op == "mcall":
+                g = T("bool", "Or", list(g.args[1:]))
             out = set()
             for a_ in g.args:
                 r_ = starts(a_, neg)
@@ -741,7 +752,8 @@ def _split(repo, col):
                     return None
                 out |= r_
             return out
-        if g.op == "cmp" and len(g.args) == 2 and ((g.name == "!=" and not neg) or (g.name == "==" and neg)):
+        if g.op == "cmp" and len(g.args) == 2 and ((g.name == "!=" and not neg) or (g.name == "==" and neg)) and \
+                not any(a_.op == "const" or (a_.op == "unary" and a_.args[0].op == "const") for a_ in g.args):
             ks = set()
             for side in g.args:
                 k = column_of(side)
@@ -756,11 +768,30 @@ def _split(repo, col):
         return None
     app = [s_ for s_ in ex.stores if s_.kind == "mcall" and s_.key.name == "append" and
            any(starts(g) is not None for g in s_.guards if g.op != "loop")]
+    cands = []
     for s_ in app[:1]:
         for g in s_.guards:
             r_ = starts(g) if g.op != "loop" else None
-            for kind_, k in (r_ or ()):
-                (direct if kind_ == "d" else indirect).add(k)
+            if r_:
+                cands.append(r_)
+    if not cands:
+        # the vectorised form: a boolean mask `(parents[1:] != inds[:-1]) | (types[1:] != types[:-1])`
+        for t_ in terms:
+            for x in t_.walk():
+                if x.op in ("bool", "binop", "unary", "not", "mcall"):
+                    r_ = starts(x)
+                    if r_ and len(r_) >= 1 and (x.op != "mcall" or x.name in ("logical_or", "logical_and")):
+                        cands.append(r_)
+        if not cands:
+            for t_ in terms:
+                for x in t_.walk():
+                    r_ = starts(x) if x.op == "cmp" else None
+                    if r_:
+                        cands.append(r_)
+        cands = [max(cands, key=len)] if cands else []
+    for r_ in cands:
+        for kind_, k in r_:
+            (direct if kind_ == "d" else indirect).add(k)
     if not direct and not indirect:
         col.unk(R, fi, "_split_into_branches: a branch starts at a discontinuity of the trace or at a type change", "comparisons not recognised", node=fi.node)
     else:
